@@ -293,4 +293,15 @@ def runMain (P : Prog) (cfg : Cfg) (env : Env) (invs : List Key) : List Ev × Na
     | (e2, .error e) => (e1 ++ e2, e.exit)
     | (e2, .ok _) => (e1 ++ e2, 0)
 
+/-! ### `Recipe::confirm`: which typed answers count as yes -/
+
+def isBlankChar (c : Char) : Bool := c = ' ' || c = '\t' || c = '\n' || c = '\r' || c = '\x0b' || c = '\x0c'
+
+def trimBlanks (l : List Char) : List Char := ((l.dropWhile isBlankChar).reverse.dropWhile isBlankChar).reverse
+
+/-- `line.trim().to_lowercase() == "y" || … == "yes"` (ASCII answers) -/
+def confirmAccepts (line : String) : Bool :=
+  let l := (trimBlanks line.toList).map Char.toLower
+  l = ['y'] || l = ['y', 'e', 's']
+
 end Just.Run
